@@ -56,7 +56,7 @@ def run_case(desc):
             S.src_version[i] += 1
             S.stores[i].set_content(irmod.Val(("src", i), S.src_version[i]))
         elif dl:
-            S.stores[rng.choice(dl)].delete()
+            S.delete(rng.choice(dl))
     out_ids = history.choose_out(rng, S)
     fresh = history.choose_fresh(rng, S)
     snap = S.snapshot()
